@@ -36,7 +36,7 @@ func c09ConcProp(st *CaseStats, fam int) func(t *rapid.T) {
 		ctx := &Ctx{}
 		defer ctx.Close()
 		sc := GenScenario(t)
-		c, err := GenCase(t, ctx, sc, CaseCfg{Family: fam, MaxDocs: 8, MaxIn: 2}, rapid.SampledFrom([]int{0, 0, 1}).Draw(t, "depth"), "c")
+		c, err := GenCase(t, ctx, sc, CaseCfg{Family: fam, MaxDocs: 8, MaxIn: 2, NoBig: true}, rapid.SampledFrom([]int{0, 0, 1}).Draw(t, "depth"), "c")
 		if err != nil {
 			t.Fatalf("%s: %v", sc, err)
 		}
